@@ -1,14 +1,17 @@
 #!/bin/sh
-# usage: seedtest.sh <property> <patch.diff> [tier]  — applies a seeded change to /repo, runs the check, undoes it.
+# usage: seedtest.sh <property> <patch.diff> [tier]  — applies a seeded change to /repo (or $VERIF_REPO), runs the
+# check, undoes it. A partial evidence file is written by that run: regenerate evidence on the clean tree afterwards.
 P="$1"; PATCH="$2"; TIER="${3:-quick}"
-cd /repo || exit 2
-git diff --quiet || { echo "/repo not clean"; exit 2; }
+R="${VERIF_REPO:-/repo}"
+cd "$R" || exit 2
+git diff --quiet || { echo "$R not clean"; exit 2; }
 git apply "$PATCH" || { echo "patch does not apply"; exit 2; }
-/verif/check "$P" "$TIER" > /tmp/seedtest.$P.out 2>&1
+OUT=$(mktemp /tmp/seedtest.$P.XXXXXX)
+/verif/check "$P" "$TIER" > "$OUT" 2>&1
 rc=$?
-git -C /repo checkout -- .
+git -C "$R" checkout -- .
 echo "exit=$rc"
-grep -c "^VIOLATION" /tmp/seedtest.$P.out | sed 's/^/violation lines: /'
-grep "^VIOLATION" /tmp/seedtest.$P.out | sed 's/replay=[^ ]*//' | sort | uniq -c | head -8
-grep "INCONCLUSIVE\|unsupported x\|property " /tmp/seedtest.$P.out | head -5
-rm -f /tmp/seedtest.$P.out
+grep -c "^VIOLATION" "$OUT" | sed 's/^/violation lines: /'
+grep "^VIOLATION" "$OUT" | sed 's/replay=[^ ]*//' | sort | uniq -c | head -8
+grep "INCONCLUSIVE\|unsupported x\|property " "$OUT" | head -5
+rm -f "$OUT"
